@@ -152,6 +152,30 @@ def accept_loop_rules(ctx, rule, fn_path, handler_suffix, label):
            "connections are handled inline in the accept loop: a slow or panicking connection blocks/ends all others")
 
 
+def r5_reply_format(ctx):
+    body = co(ctx, "R16.5", SK + "send_connection_reply")
+    if body is None:
+        return
+    o = ctx.origins(body)
+    from .common import param
+    # the reply is a 10-byte vector [5, rep, 0, 1, 0,0,0,0, 0,0]; vec![..] is lowered to a boxed array aggregate
+    arr = None
+    for bi in sorted(body.reachable()):
+        for st in body.blocks[bi]["stmts"]:
+            if st["s"] == "assign" and st["rv"]["r"] == "aggregate" and st["rv"]["kind"]["a"] == "array" and len(st["rv"]["ops"]) >= 4:
+                arr = [o.of_operand(x) for x in st["rv"]["ops"]]
+    if arr is None:
+        ctx.missing("R16.5", "reply byte array in send_connection_reply")
+        return
+    okv = const_value(arr[0]) == 5
+    okr = var_name(arr[1]) == param(body, 1)
+    okrest = len(arr) == 10 and const_value(arr[2]) == 0 and const_value(arr[3]) == 1 and all(const_value(x) == 0 for x in arr[4:])
+    ctx.ob("R16.5", "send_connection_reply:layout", okv and okr and okrest, "", "reply = [VER=5, REP=<reply parameter>, RSV=0, ATYP=1, 0.0.0.0, 0]" if okv and okr and okrest else
+           "the SOCKS5 reply is %s: not [5, reply, 0, 1, 0,0,0,0, 0,0]" % [fmt(x)[:12] for x in arr])
+    wa = calls_norm(body, "AsyncWriteExt::write_all")
+    ctx.ob("R16.5", "send_connection_reply:written-whole", len(wa) == 1, wa[0].site if wa else "", "one write_all of the reply" if len(wa) == 1 else "%d write_all calls" % len(wa))
+
+
 def r4_isolation(ctx):
     accept_loop_rules(ctx, "R16.4", SK + "start_socks5_server", "socks5::handle_socks5_connection", "socks5")
 
@@ -162,5 +186,6 @@ def run(ctx):
     r2_connect_only(ctx)
     r3_reads(ctx)
     r4_isolation(ctx)
+    r5_reply_format(ctx)
     C10.r6_front_ends(ctx)
     C07.r3_atyp_tables(ctx)
